@@ -61,7 +61,10 @@ def run_prog(exe, path, specs, calls, opt=2, timeout=300):
     return [canon(j) for j in joined[:len(lines)]]
 
 
-C01_SITES = {'get_label_disp', 'get_bb_version', 'jump_opt', 'DLIST_bb_version_t_append', 'VARR_target_bb_version_tpush'}
+# sites at which C01's open use-after-free of a label deleted by remove_unreachable_bbs kills the generator (reported to
+# the coordinator for KNOWN_FINDINGS.txt as gen-died:get_label_disp; once a site is listed there it goes through
+# chk.finding like every other death and this list no longer applies to it)
+C01_SITES = {'get_label_disp', 'get_bb_version', 'jump_opt'}
 GEN_FAILED = 'CRASH:gen:'   # the generator itself died while generating (see harness/c03_prog.h): C01's subject
 
 
